@@ -53,13 +53,24 @@ KeyErrorFake = type('KeyError', (HX,), {'__module__': __name__})
 NotFoundFake = type('NotFound', (HB,), {'__module__': __name__})
 
 
+# unrelated classes whose names merely contain a handler name
+ZHB = type('ZHB', (Exception,), {'__module__': __name__})
+HBZ = type('HBZ', (Exception,), {'__module__': __name__})
+
+
+class HQ(BaseException):
+    """an application exception outside the Exception hierarchy (like
+    KeyboardInterrupt / SystemExit): no handler names it, cleanup still
+    runs"""
+
+
 class PullBudget(BaseException):
     """A supplier was pulled beyond its budget (unbounded consumer)."""
 
 
 HARNESS_EXC = {'HA': HA, 'HB': HB, 'HC': HC, 'HX': HX, 'HM': HM,
                'HB~': HBfake, 'KeyError~': KeyErrorFake,
-               'NotFound~': NotFoundFake}
+               'NotFound~': NotFoundFake, 'ZHB': ZHB, 'HBZ': HBZ, 'HQ': HQ}
 
 
 def exc_class(name):
